@@ -149,7 +149,7 @@ class C01(EvalProp):
         return 8000
 
     def cases(self, ctx, g, n):
-        cs = mk_eval_cases(g, n, 'c', funcs=0.3, acc=0.0, jnum=0.2)
+        cs = mk_eval_cases(g, n, 'c', funcs=0.3, acc=0.0, jnum=0.2, alias=0.05, fanout=0.004)
         # tree dumps for a subset: parser model vs the real parser, node by node
         for c in cs[: max(50, n // 10)]:
             c.mode = 'tree'
@@ -183,7 +183,7 @@ class C03(EvalProp):
         return 80000
 
     def cases(self, ctx, g, n):
-        cs = mk_eval_cases(g, n, 'c', funcs=0.35, acc=0.1, jnum=0.3, maxsteps=4)
+        cs = mk_eval_cases(g, n, 'c', funcs=0.35, acc=0.1, jnum=0.3, maxsteps=4, alias=0.03)
         r = g.r
         for c in cs[::7]:
             c.docs = [r.choice([('z',), ('n', 1.0), ('s', b'x'), ('a', []), ('o', []), ('b', True)])]
@@ -665,11 +665,43 @@ class C05(Prop):
             small = ('a', [('n', 1.0), ('n', 2.0)])
             path = r.choice([b'$[*]', b'$..*', b'$[0:]', b'$[?(@ >= 0)]'])
             base.append(Case('big%d' % i, path, [small, big, small, ('o', [(b'a', ('n', 1.0))]), small]))
+        # objects with many members drawn from one key pool: a larger one, then a smaller one, then one in between
+        # (a recycled key buffer keeps a stale tail), and dense random subsets; enumerated by wildcard, filter, descent
+        for i in range(max(20, n // 25)):
+            pool = sorted(set(r.choice(['a', 'k', 'z']).encode() + b'%02d' % r.randint(0, 11) for _ in range(r.randint(12, 18))))
+            def sub(keys):
+                return ('o', [(k, ('n', float(pool.index(k)))) for k in r.sample(keys, len(keys))])
+            docs = []
+            for _ in range(r.randint(1, 2)):
+                big = r.sample(pool, r.randint(min(10, len(pool)), len(pool)))
+                sbig = sorted(big)
+                small = sorted(r.sample(big, r.randint(8, max(8, len(big) - 2))))
+                nmid = r.randint(len(small), len(big))
+                spliced = small + sbig[len(small):nmid]                  # what a stale tail would expose
+                mid = spliced if r.random() < 0.6 else sorted(r.sample(big, nmid))
+                docs += [sub(big), sub(small), sub(list(dict.fromkeys(mid)))]
+            docs += [sub(r.sample(pool, r.randint(8, len(pool)))) for _ in range(r.randint(0, 2))]
+            path = r.choice([b'$.*', b'$[*]', b'$..*', b'$[?(@ >= 0)]', b'$[?(@)]', b"$['a00','k01',*]"][:5])
+            base.append(Case('kp%d' % i, path, docs[:8], meta={'family': 'key-pool'}))
+        # re-entrancy: while a call runs, a user function calls the SAME parsed function on another document
+        reenter = {}
+        for i in range(max(20, n // 25)):
+            lens = r.sample(range(1, 9), 3)
+            docs = [('a', [('n', float(10 * j + k)) for k in range(ln)]) for j, ln in enumerate(lens)]
+            path = r.choice([b'$[-3:].id()', b'$[::-1].id()', b'$[-2:].id()', b'$[1:].id()', b'$[*].id()', b'$[0,-1].id()',
+                             b'$[?(@.id() > 3)]', b'$..[-1:].id()', b'$[:-1].id()', b'$[-4:-1].id()', b'$[::-2].id()'])
+            c = Case('re%d' % i, path, docs, ['id'], meta={'family': 'reenter'})
+            base.append(c)
+            reenter[c.id] = [docs[(k + 1) % len(docs)] for k in range(len(docs))]
         raws = []
         for c in base:
             ops = [dict(op='parse', slot=0, **op_cfg(c))]
             plan = []
             for k, d in enumerate(c.docs):
+                if c.id in reenter:
+                    ops.append({'op': 'call', 'slot': 0, 'doc': core.doc_go(d), 'reenter': core.doc_go(reenter[c.id][k])})
+                    plan.append(('call', k, len(ops) - 1))
+                    continue
                 ops.append({'op': 'call', 'slot': 0, 'doc': core.doc_go(d)})
                 plan.append(('call', k, len(ops) - 1))
                 if r.random() < 0.5:
@@ -996,6 +1028,19 @@ def distinct_members(g, jnum=False, opaque=0.0, n=None):
     return out
 
 
+def plant_nan(r, ms):
+    """some numeric leaves become a Go float64 NaN (a document assembled in Go code; no JSON text decodes to it):
+    numeric fields of object members, and at most one scalar member (members stay pairwise distinct)"""
+    out, scalar_done = [], False
+    for m in ms:
+        if m[0] == 'o':
+            m = ('o', [(k, ('x', 'nan')) if (v[0] == 'n' and k != b'u' and r.random() < 0.5) else (k, v) for k, v in m[1]])
+        elif m[0] == 'n' and not scalar_done and r.random() < 0.5:
+            m, scalar_done = ('x', 'nan'), True
+        out.append(m)
+    return out
+
+
 def selection(obs):
     """the selected members of `$[?(…)]` as a list of renderings; None when the call did not
     end in ok / member-not-exist"""
@@ -1038,11 +1083,28 @@ class C08(Prop):
             doc, steps = gens.allwild_family(g)
             for k in range(1, len(steps)):
                 items.append((doc, steps[:k], steps[k:], []))
+        # long arrays under a multi-valued prefix (the prefix has put results into the buffer before the long run of appends)
+        for i in range(max(12, n // 150)):
+            doc, steps = gens.big_fanout_family(g)
+            for k in range(1, len(steps)):
+                items.append((doc, steps[:k], steps[k:], []))
+        # documents assembled in Go code: a sub-container referenced from two places (shared, not copied)
+        aliased = set()
+        for i in range(len(items)):
+            doc, p_, q_, f_ = items[i]
+            if r.random() < (0.12 if any(st[0] == 'rec' for st in p_ + q_) else 0.02):
+                d2 = gens.alias_variant(r, doc)
+                if d2 is not None:
+                    items[i] = (d2, p_, q_, f_)
+                    aliased.add(i)
         corpus = load_corpus(self.id, ctx.root) if seed_offset == 0 else []
         # now and then the path is written without its leading `$` (a bracket or a bare name may start a path)
         nodollar = [r.random() < 0.12 for _ in items]
         whole = [Case('w%d' % i, gens.render_path(p + q, None, dollar=not nodollar[i]), [doc], f, []) for i, (doc, p, q, f) in enumerate(items)]
         pre = [Case('p%d' % i, gens.render_path(p, None, dollar=not nodollar[i]), [doc], f, []) for i, (doc, p, q, f) in enumerate(items)]
+        for i in aliased:
+            whole[i].alias = True
+            pre[i].alias = True
         go_w, mo_w = both_sides(whole + corpus)
         go_p = core.run_go(pre)
         # third retrievals: $Q on every value P selected
@@ -1192,6 +1254,12 @@ class C09(Prop):
                     exprs['r' + o] = R + b' ' + o.encode() + b' ' + L
                 kind = 'cmp:%s:%s' % (lhs[0], rhs[0])
                 exprs['_numlit'] = (lhs[0] == 'lit' and lhs[1][0] == 'n') or (rhs[0] == 'lit' and rhs[1][0] == 'n')
+                if exprs['_numlit'] and not jn and r.random() < 0.4:
+                    # against a number literal: some numeric leaves of the members become a Go float64 NaN (never when two
+                    # paths are compared: reflect.DeepEqual's identity shortcut on a shared container is not modelled)
+                    ms2 = plant_nan(r, ms)
+                    body2 = ('a', ms2) if body[0] == 'a' else ('o', [(k, m2) for (k, _), m2 in zip(body[1], ms2)])
+                    doc = ('o', [(k, body2 if k == b'list' else v) for k, v in top])
             fams.append((doc, kind, exprs))
         # families from the reference-value generator: comparisons that really hit
         for i in range(n // 3):
@@ -1741,7 +1809,7 @@ class C15(Prop):
         n = ctx.n(9000, 80000) * budget_scale
         cases = load_corpus(self.id, ctx.root) if seed_offset == 0 else []
         expect = {}
-        cases += mk_eval_cases(g, n * 2 // 3, 'e', funcs=0.2, acc=0.1, jnum=0.15, filter_heavy=0.3)
+        cases += mk_eval_cases(g, n * 2 // 3, 'e', funcs=0.2, acc=0.1, jnum=0.15, filter_heavy=0.3, alias=0.03)
         for i in range(n // 3):
             jn = r.random() < 0.2
             doc = g.doc(4, jn, 0)
@@ -1854,7 +1922,10 @@ class C16(Prop):
                     w = 'ok:[n(1,0)]'
                 elif pos == 2:
                     dotless = sp[1:] if sp.startswith(b'.') else sp
-                    c = Case(cid, b'$..' + dotless, [('a', [obj])])
+                    shape = i % 4
+                    holder = [('a', [obj]), ('a', [('a', [obj])]), ('o', [(b'rows', ('a', [('a', [obj]), ('a', [('s', b'x')])]))]),
+                              ('a', [('a', [('a', [obj])])])][shape]
+                    c = Case(cid, b'$..' + dotless, [holder])
                     w = 'ok:[n(1,0)]'
                 elif pos == 3:
                     c = Case(cid, b'$[?(@' + sp + b' == 1)]', [('a', [obj, ('o', [(b'zz', ('n', 1.0))])])])
